@@ -107,6 +107,13 @@ pub fn run(ctx: &mut Ctx) -> (&'static str, String, bool) {
         if open != exp_open {
             ctx.violation(format!("C14/is_open/{name}"), format!("Track::{name} (code {code}) is_open()={open}"), json!({"variant": name}));
         }
+        // "no lap distance" holds in either unit
+        if exp_open {
+            let km = guarded(|| t.distance_km()).ok().flatten();
+            if km.is_some() {
+                ctx.violation(format!("C14/open-has-distance/{name}"), format!("open configuration Track::{name} has lap distance {:?} km", km), json!({"variant": name}));
+            }
+        }
         if exp_open && dist.is_some() {
             ctx.violation(format!("C14/open-has-distance/{name}"), format!("open configuration Track::{name} has lap distance {:?}", dist), json!({"variant": name}));
         }
